@@ -1,4 +1,8 @@
-"""c03 — decided by the per-construct contracts on extract_visitor (contracts/nast_flow.py) and the table lemmas"""
+"""C03 — no phantom definitions; "possibly undefined" exact; never-bound names flagged (subset direction + unbound component)"""
 import contracts.nast_flow  # noqa
+import contracts.tables  # noqa
+import contracts.names  # noqa
+import contracts.positions  # noqa
 
-INFO = {'not_decided': [], 'stated_lemmas': ['composition lemma (DESIGN 2.2)'], 'trusted': []}
+INFO = {'not_decided': ['reads of comprehension variables / except-clause names after their construct (outside the domain)'],
+        'stated_lemmas': ['composition lemma (DESIGN 2.2)'], 'trusted': []}
